@@ -66,6 +66,9 @@ func (vc *VC) safetyCheck(name, pos, text, alive, cond string, st *State) {
 	if vc.safety {
 		vc.oblige("safety", name, pos, text, alive, cond, []string{vc.safetyTag()})
 	}
+	if cond == "false" {
+		return // never assume false on the normal path: it would make everything after this point vacuous
+	}
 	vc.assume(alive, cond)
 }
 
